@@ -55,13 +55,14 @@ func runInteropCase(c ioCase, bin, tmp string) map[string]interface{} {
 	versioned := len(c.Name)%2 == 1 && cell.Launch != "reattach"
 	if versioned {
 		pc.LegacyVersion, pc.Legacy = 0, nil
-		pc.Versioned = map[int]vp.SetCfg{2: {Proto: cell.Proto, Tag: "1"}, 3: {Proto: cell.Proto, Tag: "1"}}
+		// (the highest common version, 2, is neither the host's newest nor the plugin's lowest)
+		pc.Versioned = map[int]vp.SetCfg{1: {Proto: cell.Proto, Tag: "1"}, 2: {Proto: cell.Proto, Tag: "1"}}
 	}
 	mkHost := func(launch string) *vp.HostCfg {
 		hc := &vp.HostCfg{LegacyVersion: 1, Legacy: &vp.SetCfg{Proto: "grpc", Tag: "1"}, Mux: cell.MuxReq, Launch: launch, TempDir: tmp, StartTimeoutMs: 8000}
 		if versioned {
 			hc.LegacyVersion, hc.Legacy = 0, nil
-			hc.Versioned = map[int]vp.SetCfg{1: {Proto: "grpc", Tag: "1"}, 3: {Proto: "grpc", Tag: "1"}}
+			hc.Versioned = map[int]vp.SetCfg{2: {Proto: "grpc", Tag: "1"}, 3: {Proto: "grpc", Tag: "1"}}
 		}
 		if launch == "runner" {
 			// the custom runner is one under which the plugin sees the socket directory under another path:
